@@ -92,7 +92,7 @@ def run(repo, report, tier):
     report.rule("C18.R6", "an error parameter of 1 or more is divided by the number of non-N bases of the normalised (upper-cased, I->N) adapter sequence", "absolute error counts are converted with the wrong length")
     report.rule("C18.R7", "every exception class raised while parsing specifications / constructing adapters is caught by adapters_from_args and converted to CommandLineError (exit status 2 by C12.R3)",
                 "an invalid specification ends in a traceback instead of an error message and exit status 2")
-    report.rule("C18.R8", "brace notation: expand_braces is the four-state machine (start / after text / after '{' / after the count): x{n} replaces the last character written by n copies of it, 0 <= n <= 10000; a brace in any other position, a non-terminated expression and a count that is not an integer raise ValueError (caught by C18.R7); the expansion is applied to the sequence before the adapter is built",
+    report.rule("C18.R8", "brace notation: expand_braces is the four-state machine (start / after text / after '{' / after the count): x{n} replaces the last character written by n copies of it for every 0 <= n <= 10000 (a higher limit is fine), a negative n raises; a brace in any other position, a non-terminated expression and a count that is not an integer raise ValueError (caught by C18.R7); the expansion is applied to the sequence before the adapter is built",
                 "A{3} is not expanded to AAA, or a malformed brace expression is silently accepted")
     report.guard("C18.R1", "argparse", r1_options, repo, report)
     report.guard("C18.R2", "class table", r2_classes, repo, report)
@@ -645,14 +645,18 @@ def r8_braces(repo, report):
                     if not any(k.startswith("sign:") and f"int({arg})" in k for k in r.valuation):
                         bad.append((sn, tn, "the token after '{' is not converted with int() and range-checked", r.describe()["valuation"]))
                         continue
-                    inside = entails(r.valuation, ast.GtE(), X, Lin.k(0)) is True and entails(r.valuation, ast.LtE(), X, Lin.k(10000)) is True
-                    outside = entails(r.valuation, ast.Lt(), X, Lin.k(0)) is True or entails(r.valuation, ast.Gt(), X, Lin.k(10000)) is True
-                    if inside and (r.exit[0] != "fall" or nxt != f"int({arg})" or out != "OUT"):
+                    negative = entails(r.valuation, ast.Lt(), X, Lin.k(0)) is True
+                    above = entails(r.valuation, ast.Gt(), X, Lin.k(10000)) is True  # the upper limit is an implementation choice: raising it is fine
+                    nonneg = entails(r.valuation, ast.GtE(), X, Lin.k(0)) is True
+                    if negative:
+                        if r.exit[0] != "raise":
+                            bad.append((sn, tn, "a negative count must raise", r.describe()["valuation"]))
+                    elif above:
+                        pass
+                    elif not nonneg:
+                        bad.append((sn, tn, "the count is accepted or rejected without having been compared with 0", r.exit[0], r.describe()["valuation"]))
+                    elif r.exit[0] != "fall" or nxt != f"int({arg})" or out != "OUT":
                         bad.append((sn, tn, "a count in [0, 10000] must become the state", r.exit[0], r.describe()["valuation"]))
-                    elif outside and r.exit[0] != "raise":
-                        bad.append((sn, tn, "a count outside [0, 10000] must raise", r.describe()["valuation"]))
-                    elif not inside and not outside:
-                        bad.append((sn, tn, "the count is accepted or rejected without having been compared with both 0 and 10000", r.exit[0], r.describe()["valuation"]))
                     continue
                 w = want[(sn, tn)]
                 if w == "raise":
